@@ -1,5 +1,8 @@
 //! Per-property workloads and verdict logic.
 pub mod hist;
+pub mod real_c16;
+pub mod real_misc;
+pub mod realp;
 pub mod sched;
 
 use crate::ap::{Project, Rel};
@@ -96,7 +99,9 @@ impl PredInv {
 
 pub fn predict_inv(world: &World, inv: &Inv) -> PredInv {
     let mut st = world.st.clone();
-    st.clock += 1_000_000_000;
+    // fresh ticks of the dry run must not collide with anything on disk
+    // (logical ticks are small; real mtimes in ns are below 2^62)
+    st.clock = st.clock.max(1u64 << 62) + 1_000_000_000;
     let proj = &world.proj;
     let rel = Rel::new(proj);
     let mf = crate::ap::canon_ref(&inv.build_file.clone().unwrap_or_else(|| proj.manifest.clone()));
